@@ -265,6 +265,10 @@ def overflow_sites(ctx, run, rule, cone, want_types=NARROW, floor=None, label='n
                     if not ok and s['ok']:
                         s['ok'] = False
                         s['wit'] = wit
+                        from panics import opaque_container
+                        s['opaque'] = None
+                        for x in e[2]:
+                            s['opaque'] = s['opaque'] or opaque_container(x, b)
                     elif s['wit'] is None:
                         s['wit'] = wit
                 elif e[0] == 'call' and called(e[1], 'abs') and e[2]:
@@ -285,10 +289,16 @@ def overflow_sites(ctx, run, rule, cone, want_types=NARROW, floor=None, label='n
                         s['ok'] = False
                     s['wit'] = f'operand in {a}; abs() overflows for {tr.lo()}'
     n = 0
+    from panics import baseline_sites
+    base = baseline_sites()
     for (p, desc), s in sorted(sites.items()):
         n += 1
         if s['ok']:
             run.proved(rule, p, desc, s['wit'] or '', s['loc'])
+        elif s.get('opaque'):
+            run.undecided(rule, p, desc, f'{label} not shown to stay in range, but not refuted either ({s["opaque"]}, which the interval evaluation does not model): {s["wit"]}', s['loc'])
+        elif base is not None and p not in base['functions']:
+            run.undecided(rule, p, desc, f'{label} in a function that did not exist on the pinned tree, not shown to stay in range ({s["wit"]}); whether its callers bound the operands is not decided', s['loc'])
         else:
             run.violation(rule, p, desc, f'{label} can overflow (panics in dev builds, wraps in release): {s["wit"]}', s['loc'])
     if floor is not None:
